@@ -433,6 +433,14 @@ pub fn project(text: &str, wgsl_source: &str) -> Result<Value, String> {
                     // const _: () = assert!(lhs == N, "text");
                     let t = toks(&c.expr);
                     let a = parse_assert(&v);
+                    // a layout check that only exists under some configuration (`#[cfg(..)]` / `#[cfg_attr(..)]`) is not a check of every build
+                    let conditional = c.attrs.iter().any(|at| at.path().is_ident("cfg") || at.path().is_ident("cfg_attr"));
+                    let a = a.map(|mut a| {
+                        if conditional {
+                            a["conditional"] = json!(true);
+                        }
+                        a
+                    });
                     match a {
                         Some(a) => {
                             let sname = a["struct"].as_str().unwrap_or("").to_string();
